@@ -484,6 +484,9 @@ pub enum Strategy {
     Pct(u8),
     /// run each thread to completion in index order (sequential twin)
     RoundRobin,
+    /// no baton at all: the simulated threads are plain threads and somebody else (Miri) owns
+    /// the schedule
+    Free,
 }
 
 #[derive(Serialize, Deserialize, Clone, Debug, PartialEq, Eq, Hash)]
